@@ -33,6 +33,7 @@ def EI {α} (r : IRes α) : IRes α := (eraseErr r.1, r.2)
 @[simp] theorem State.unloc_inProgress (st : State) : st.unloc.inProgress = st.inProgress := rfl
 @[simp] theorem State.unloc_importEnd (st : State) : st.unloc.importEnd = st.importEnd := rfl
 @[simp] theorem State.unloc_files (st : State) : st.unloc.files = st.files := rfl
+@[simp] theorem State.unloc_dir (st : State) : st.unloc.dir = st.dir := rfl
 @[simp] theorem State.unloc_factories (st : State) :
     st.unloc.factories = st.factories.map (fun p => (p.1, p.2.unloc)) := rfl
 @[simp] theorem State.unloc_instances (st : State) :
@@ -318,12 +319,12 @@ theorem i_importSet (st : State) (s : ImportSet) :
 theorem i_findFactory (st : State) (name : LibName) (loc : Loc) :
     EI (findFactory st.unloc name none) = IU Factory.unloc (findFactory st name loc) := by
   unfold findFactory
-  simp only [State.unloc_factories, libLookup_map, State.unloc_files]
+  simp only [State.unloc_factories, libLookup_map, State.unloc_files, State.unloc_dir]
   cases libLookup st.factories name with
   | some f => rfl
   | none =>
     simp only [Option.map_none]
-    cases st.files.lookup (libPath name) with
+    cases st.files.lookup (fileKey st.dir (libPath name)) with
     | none => rfl
     | some fe =>
       cases fe with
